@@ -23,7 +23,7 @@ RULE = ("seeded timelines over 1-4 instances: create with every timeout unit alo
         "in which an instance was within eps of its deadline when a sweep trigger happened.")
 ASSUMPTIONS = ["decided under the substituted clock (datetime.now is the only time source of the instance manager); real time is cross-checked on short timelines only",
                "a direct access to an expired but not yet swept instance is unspecified: the shadow adopts what the server did"]
-REQUIRED = {"designed_timelines": 20, "whole_server_saves": 10, "events": 2000, "sweep_checks": 1000, "boundary_hits": 100, "expiries_observed": 100, "restores_observed": 20}
+REQUIRED = {"zero_timeout_instances": 20, "designed_timelines": 20, "whole_server_saves": 10, "events": 2000, "sweep_checks": 1000, "boundary_hits": 100, "expiries_observed": 100, "restores_observed": 20}
 BUDGET_S = {"quick": 110, "thorough": 1500}
 
 UNITS = ["weeks", "days", "hours", "minutes", "seconds", "milliseconds", "microseconds"]
@@ -41,7 +41,72 @@ def gen_cases(tier, seed):
         for order in ("long-first", "short-first"):
             for restorer in ("keep-alive", "run-step", "session-results"):
                 cases.append(dict(kind="designed", adapter=True, trigger=trigger, order=order, restorer=restorer, seed=seed))
+    # timeouts that add up to zero, in several spellings, single and batch: such an instance has been idle for its whole timeout the moment it exists
+    for trigger in ("metrics", "full-metrics", "create", "other-access"):
+        for batch in (False, True):
+            cases.append(dict(kind="zero", adapter=False, trigger=trigger, batch=batch, seed=seed))
     return cases
+
+
+ZERO_SPECS = [{"seconds": 0}, {}, {"minutes": 1, "seconds": -60}, {u: 0 for u in UNITS}, {"hours": 0.0}]
+
+
+def run_zero(case, counters):
+    run = Run(case, counters)
+    trace = []
+    try:
+        w = run.create({"minutes": 10})
+        trace.append(("create", "10 min"))
+        if w:
+            return w, trace, run
+        long_id = run.all_ids[0]
+        zero, objs = [], {}
+        for spec in ZERO_SPECS:
+            if case["batch"]:
+                r = run.c.post("/start-instances", json={"instances": 2, "timeout": spec})
+                ids = json.loads(r.get_data(as_text=True)).get("instance_uuids", []) if r.status_code == 200 else []
+            else:
+                r = run.c.post("/start-instance", json={"timeout": spec})
+                ids = [json.loads(r.get_data(as_text=True))["instance_uuid"]] if r.status_code == 200 else []
+            trace.append(("create-zero", json.dumps(spec), r.status_code))
+            if r.status_code != 200:
+                continue         # (a refusal is loud and creates nothing)
+            for i in ids:
+                zero.append((i, spec))
+                o = run.app._instance_manager._instances.get(i)
+                if o is not None:
+                    objs[i] = o["instance"]
+        if not zero:
+            return dict(kind="harness", msg="no zero-timeout instance was accepted"), trace, run
+        run.clock.advance(seconds=1)
+        t = case["trigger"]
+        trace.append(("advance 1s", t))
+        if t in ("metrics", "full-metrics"):
+            run.c.get("/" + t)
+        elif t == "create":
+            w = run.create({"hours": 2})
+            if w:
+                return w, trace, run
+        else:
+            w = run.access(long_id, "keep-alive")
+            if w:
+                return w, trace, run
+        js = json.loads(run.c.get("/full-metrics").get_data(as_text=True))
+        listed = set(k for k in js if k not in ("instanceCount", "threadCount"))
+        for (i, spec) in zero:
+            counters["zero_timeout_instances"] = counters.get("zero_timeout_instances", 0) + 1
+            if i in listed or i in run.app._instance_manager._instances:
+                return dict(kind="still-present-after-sweep", timeout=spec, trigger=t, instance="zero-timeout", count=js["instanceCount"]), trace, run
+            if i in objs and run.destroyed.get(id(objs[i]), 0) != 1:
+                return dict(kind="destroy-count", timeout=spec, destroy_calls=run.destroyed.get(id(objs[i]), 0), trigger=t), trace, run
+            r = run.c.post("/%s/keep-alive" % i)
+            if r.status_code < 400:
+                return dict(kind="served-after-expiry", timeout=spec, request="keep-alive", status=r.status_code), trace, run
+        if js["instanceCount"] != len(run.shadow):
+            return dict(kind="full-metrics-content", count=js["instanceCount"], expected=len(run.shadow)), trace, run
+        return None, trace, run
+    finally:
+        run.close()
 
 
 def rand_timeout(rng):
@@ -408,6 +473,8 @@ def run_case(case):
     counters = {}
     if case["kind"] == "designed":
         w, trace, run = run_designed(case, counters)
+    elif case["kind"] == "zero":
+        w, trace, run = run_zero(case, counters)
     elif case["kind"] == "clock":
         w, trace, run = run_clock_case(case, counters)
     else:
